@@ -25,6 +25,7 @@ import (
 
 type propInfo struct {
 	Bin         string `json:"bin"`
+	ExtraBins   []string `json:"extra_bins"`
 	QuickS      int    `json:"quick_s"`
 	ThoroughS   int    `json:"thorough_s"`
 	Level       string `json:"level"`
@@ -158,9 +159,23 @@ func main() {
 	start := time.Now()
 	dir := build()
 	bin := filepath.Join(dir, info.Bin+".test")
+	bins := []string{bin}
+	for _, b := range info.ExtraBins {
+		bins = append(bins, filepath.Join(dir, b+".test"))
+	}
+	if len(bins) > workers {
+		workers = len(bins)
+	}
 
 	if replay != "" {
-		os.Exit(runReplay(bin, prop, replay, true))
+		rc := 0
+		for _, b := range bins {
+			rc = runReplay(b, prop, replay, true)
+			if rc != 2 {
+				break
+			}
+		}
+		os.Exit(rc)
 	}
 	if budget == 0 {
 		budget = info.QuickS
@@ -193,10 +208,13 @@ func main() {
 			defer wg.Done()
 			outPath := filepath.Join(tmp, fmt.Sprintf("out-%d.json", w))
 			progPath := filepath.Join(tmp, fmt.Sprintf("progress-%d", w))
-			cmd := exec.Command(bin, "-test.run", "^TestVerif$", "-test.timeout", fmt.Sprintf("%ds", budget*3+300))
+			// a property may be decided in worlds of several packages: spread the workers
+			wbin := bins[w%len(bins)]
+			binWorkers := (workers - w%len(bins) + len(bins) - 1) / len(bins)
+			cmd := exec.Command(wbin, "-test.run", "^TestVerif$", "-test.timeout", fmt.Sprintf("%ds", budget*3+300))
 			cmd.Env = append(os.Environ(),
 				"VERIF_PROP="+prop, "VERIF_TIER="+tier, fmt.Sprintf("VERIF_SEED=%d", seed),
-				fmt.Sprintf("VERIF_WORKER=%d", w), fmt.Sprintf("VERIF_WORKERS=%d", workers),
+				fmt.Sprintf("VERIF_WORKER=%d", w/len(bins)), fmt.Sprintf("VERIF_WORKERS=%d", binWorkers),
 				fmt.Sprintf("VERIF_BUDGET_S=%d", budget), "VERIF_OUT="+outPath, "VERIF_PROGRESS="+progPath,
 				"VERIF_REPLAY_DIR="+replayDir, "VERIF_KNOWN="+filepath.Join(root, "known_findings.jsonl"),
 				"GOMAXPROCS=1", "VERIF_REPLAY=")
@@ -307,7 +325,13 @@ func main() {
 			continue
 		}
 		seen[key] = true
-		if rc := runReplay(bin, prop, v.Replay, false); rc == 1 {
+		rc := 0
+		for _, b := range bins {
+			if rc = runReplay(b, prop, v.Replay, false); rc != 2 {
+				break
+			}
+		}
+		if rc == 1 {
 			confirmed = append(confirmed, v)
 		} else {
 			trouble = append(trouble, fmt.Sprintf("replay %s did not reproduce %s/%s in a fresh process (nondeterminism in harness?)", v.Replay, v.Clause, v.Signature))
